@@ -111,7 +111,7 @@ func columnLists(rng *rand.Rand, t *hx.TableInfo, n int) [][]string {
 func C01(run *hx.Run) {
 	run.Rule = "for every table of every generated database x several column lists (all columns; PRNG subsets, permutations, repeats, rowid/oid/_rowid_, mixed-case names): DB.Select rows vs SQLite's SELECT ... ORDER BY rowid|pk (values, storage classes, count, order); online monitors: rowids strictly increasing, count equals count(*); low-level Table.Scan / Index.Scan records vs the same reference. distinct = distinct (database, table, column list) triples with at least one row"
 	run.Assumptions = append(stdAssumptions, "an integral REAL surfacing as an integer is accepted (documented)")
-	profiles := hx.Profiles(run.Tier, run.Seed)
+	profiles := hx.ProfilesReps(run.Tier, run.Seed, 10)
 	nLists := 4
 	if run.Thorough() {
 		nLists = 8
@@ -370,6 +370,9 @@ func alterDefaults(run *hx.Run) {
 		{"str", "'txt'"}, {"numstr", "'12'"}, {"realstr", "'1.5'"}, {"emptystr", "''"}, {"null", "NULL"},
 		{"true", "TRUE"}, {"false", "FALSE"}, {"hex", "0x10"}, {"exp", "1e3"}, {"bigint", "9223372036854775807"},
 		{"blob", "X'00ff'"}, {"parenint", "(5)"}, {"quoted-ident", "\"dq\""},
+		{"leadzero", "010"}, {"negleadzero", "-007"}, {"leadzero-real", "01.50"}, {"dotreal", ".5"}, {"trailing-dot", "5."},
+		{"int-beyond-int64", "9223372036854775808"}, {"negexp", "1e-2"}, {"leadzero-str", "'010'"}, {"spaced-numstr", "' 12 '"},
+		{"hexstr", "'0x10'"}, {"expstr", "'1e3'"}, {"infstr", "'Inf'"}, {"nanstr", "'nan'"}, {"hexfloatstr", "'0x1p4'"}, {"underscore-str", "'1_000'"},
 	}
 	path := dir + "/alter.sqlite"
 	var stmts []string
